@@ -43,7 +43,7 @@ Definition strip_comments (txt : text) : text :=
 Fixpoint cut_colon (acc : text) (s : text) : option (text * text) :=
   match s with
   | [] => None
-  | x :: s' => if (x =? 58)%Z then Some (rev acc, s') else cut_colon (x :: acc) s'
+  | x :: s' => if (x =? 58)%Z then Some (frev acc, s') else cut_colon (x :: acc) s'
   end.
 Definition parse_item (it : text) : option (text * text) :=
   match it with
